@@ -118,6 +118,8 @@ for D in (1, 2, 3):
           requires=[WF('self', D, zero_based=True), '%s == 0 && %s == 1' % (lp('self', D, 'offset_'), lp('self', D, 'nelems_')), 'self->base_ != 0', ' && '.join('INR(%s)' % x for x in ii)] + (['INOFF(%s)' % total(D)] if D > 1 else []),
           lemmas=vlem,
           ensures=[('[delegation] a view is (de)serialised by exactly one std::for_each over its elements() range; no index and no flat block goes to the archive', 'g_fe_calls == 1 && g_rf_calls == 0 && g_nlong == 0 && g_arr_calls == 0'),
+                   ('a flat block (make_array) instead of the elements() range is only used when, for every index tuple, the element sits at its canonical linear position in that block, which has exactly num_elements() cells',
+                    'IMPLIES(g_arr_calls >= 1 && %s, g_arr_calls == 1 && g_fe_calls == 0 && g_arr_n == %s && g_arr_p + (%s) == %s)' % (in_rng, total(D), lin, cellv)),
                    ('a walk over the raw storage (instead of the elements() range) is only used when, for every index tuple, the element sits at its canonical linear position in the walked block, which has exactly num_elements() cells',
                     'IMPLIES(g_rf_calls >= 1 && %s, g_rf_calls == 1 && g_fe_calls == 0 && g_rf_last == g_rf_first + %s && g_rf_first + (%s) == %s)' % (in_rng, total(D), lin, cellv)),
                    ('the range is [elements().begin(), elements().end()) of this very view: same base, same layout in every dimension, canonical positions 0 and num_elements(); the function object feeds this archive',
